@@ -300,6 +300,7 @@ func (w *world) eval(u *unitCase, toCoq bool) (string, obs) {
 	for _, c := range u.Chunks {
 		u.ChunkLen = append(u.ChunkLen, len(c))
 	}
+	key := caseKey(u) // from the scripted input (for e2e: the segments written, not the reads observed)
 	var o obs
 	if u.Kind == "e2e" {
 		segs := u.Chunks
@@ -344,7 +345,7 @@ func (w *world) eval(u *unitCase, toCoq bool) (string, obs) {
 	if u.Kind == "e2e" {
 		r.Count("e2e:" + u.Stack)
 		if u.HighLevel {
-			r.Count("e2e:highlevel")
+			r.Count("e2e:highlevel-" + u.HLMode)
 		}
 	}
 	r.Count("site:" + string(u.Doc.Site))
@@ -368,7 +369,7 @@ func (w *world) eval(u *unitCase, toCoq bool) (string, obs) {
 		w.coqText += len(c.Coq)
 		r.Count("coq:emitted")
 	}
-	r.Add(c, caseKey(u), nontrivial)
+	r.Add(c, key, nontrivial)
 	return class, o
 }
 
